@@ -25,5 +25,11 @@ p = os.path.join(V, "DESIGN.md")
 s = open(p).read()
 head = "| id | change | caught by | note |\n|---|---|---|---|\n"
 i = s.index(head) + len(head)
-open(p, "w").write(s[:i] + "\n".join(rows) + "\n")
+# the table ends at the first following line that is not a table row; keep whatever comes after it
+rest = s[i:].split("\n")
+j = 0
+while j < len(rest) and rest[j].startswith("|"):
+    j += 1
+tail = "\n".join(rest[j:]).lstrip("\n")
+open(p, "w").write(s[:i] + "\n".join(rows) + "\n" + ("\n" + tail if tail else ""))
 print(len(rows), "rows")
